@@ -13,7 +13,7 @@ from .common import DT, PU, ckey
 
 P = "C09"
 EXPLANATION = (
-    "Static rules D9.1-D9.7 (DESIGN.md section 5, C09): segment type / logical type / logical format bit tables against CIP "
+    "Static rules D9.1-D9.8 (DESIGN.md section 5, C09): segment type / logical type / logical format bit tables against CIP "
     "Vol.1 App. C-1.4 (spec/epath.json) incl. disjointness of the bit fields; the value->width dispatch of logical segments "
     "(thresholds 2^(8w)-1 ascending, out of range raises); pad-parity rules of logical, symbolic and port segments and the word "
     "count prefix of the padded EPATH; that every literal segment kind used at a construction site exists in its table; the "
@@ -348,3 +348,30 @@ def d9_7(ctx):
     ok = accepted is not None and all((lo <= v <= hi) == (v in accepted) for v in points)
     ctx.check(ok, ckey(ps.key + "._encode", "port-range"), uses[0].ast, f"only ports {lo}..{hi} reach the port byte (others raise)",
               f"port numbers are not confined to {lo}..{hi} before `USINT.encode(port)`: a port of {sp['extended_link_bit'] + 1} sets the extended-link bit and the emitted segment denotes another route (accepted sample values: {accepted})", accepted=accepted, tests=[src(t.ast) for t, _ in conds])
+
+
+@rule(P, "D9.8", "T-WITNESS", floor=6)
+def d9_8(ctx):
+    """The helper that splits `name[i,j,k]` is folded on witness tags with 0..3 subscripts (sa/miniinterp.py; a module-level
+    regular expression with a constant pattern is applied by Python's own regex engine, like any other constant folding):
+    it must return the bare name and every subscript, in order."""
+    from ..miniinterp import run_function
+
+    fi = ctx.model.func(f"{PU}:_find_tag_index")
+    p = fi.node.args.args[0].arg
+    witnesses = {"T": ("T", []), "Tag_1": ("Tag_1", []), "T[7]": ("T", [7]), "Arr[1,2]": ("Arr", [1, 2]), "T[1,2,3]": ("T", [1, 2, 3]), "Grid[10,200,70000]": ("Grid", [10, 200, 70000]), "a[0,0,0]": ("a", [0, 0, 0]), "b[5,6,5]": ("b", [5, 6, 5])}
+    for w, (name, idx) in witnesses.items():
+        kind, res = run_function(ctx, fi.module, fi.node, {p: w})
+        key = ckey(fi, f"witness:{w}")
+        if kind == "unknown":
+            ctx.undecided(key, fi.node, f"_find_tag_index is not foldable on `{w}`: {res}")
+            continue
+        ok = kind == "return" and isinstance(res, (tuple, list)) and len(res) == 2 and res[0] == name
+        got_idx = None
+        if ok:
+            try:
+                got_idx = [int(x) for x in res[1]]
+            except (TypeError, ValueError):
+                got_idx = None
+            ok = got_idx == idx
+        ctx.check(ok, key, fi.node, f"`{w}` -> ({name!r}, {idx})", f"`{w}` splits into {res!r} (expected name {name!r} and subscripts {idx}): the emitted path addresses another element", witness=w)
